@@ -248,6 +248,34 @@ def check(ctx, rng, kind, ptr, endian, align, compiled):
             except Exception as e:  # noqa: BLE001
                 viol("arith", f"pointer-operator-result-cannot-dereference:{type(e).__name__}", data=data,
                      expr=f"p {name} {operand}")
+        # ... and with operands that do change the address: the result is the pointer at the address the integers give
+        width_bits = ALL_INTS[cfgd["ptr"]][0] * 8
+        for name, fn, _ in ops:
+            for operand in (a0, 1, 3, a0 | 1, 0x55, 2):
+                if name in ("//", "%") and operand == 0:
+                    continue
+                if name == "**" and (operand > 3 or a0 > 1 << 16):
+                    continue
+                if name == "<<" and operand > 8:
+                    continue
+                try:
+                    wanted = fn(a0, operand)
+                except Exception:  # noqa: BLE001
+                    continue
+                if not 0 <= wanted < (1 << width_bits):
+                    continue
+                ctx.evaluation((case["text"], tuple(sorted(cfgd.items())), data.hex(), "op-value", name, operand))
+                try:
+                    x = fn(p, operand)
+                    ok = type(x) is type(p) and int(x) == wanted
+                except Exception as e:  # noqa: BLE001
+                    viol("arith", f"pointer-operator-raises:{type(e).__name__}", data=data, expr=f"p {name} {operand}")
+                    continue
+                if not ok:
+                    viol("arith", "pointer-operator-gives-another-address-than-the-integers", data=data,
+                         expr=f"{hex(a0)} {name} {hex(operand)}", got=repr(x), want=hex(wanted))
+                else:
+                    ctx.event("operator_values_checked")
         try:
             nxt = (o.arr[0] + 0)
             far = p + 1
@@ -508,7 +536,7 @@ def union_pointers(ctx):
 
     for compiled in (True, False):
         for endian in "<>":
-            text = ("struct inn { uint8 *q; uint8 t; };\nunion u { uint8 *p; uint32 raw; inn s; uint8 *arr[2]; };\n"
+            text = ("struct inn { uint8 *q; uint8 t; };\nunion u { uint8 *p; uint32 raw; inn s; uint8 *arr[2]; uint8 *grid[2][2]; };\n"
                     "struct outer { uint8 pad[4]; u un; };")
             ctx.evaluation(("union-pointers", compiled, endian))
             ctx.cell("union-pointers")
@@ -521,7 +549,7 @@ def union_pointers(ctx):
                 o = cs.outer(fh)
                 pos = fh.tell()
                 got = []
-                for ptr in (o.un.p, o.un.s.q, o.un.arr[0]):
+                for ptr in (o.un.p, o.un.s.q, o.un.arr[0], o.un.grid[0][0]):
                     try:
                         got.append(int(ptr.dereference()))
                     except Exception as e:  # noqa: BLE001
@@ -530,15 +558,16 @@ def union_pointers(ctx):
                     o.un.raw = 9 if endian == "<" else 9 << 24      # the pointer members now hold address 9
                     got.append(int(o.un.p.dereference()))
                     got.append(int(o.un.s.q.dereference()))
+                    got.append(int(o.un.grid[0][0].dereference()))
                 except Exception as e:  # noqa: BLE001
                     got.append(type(e).__name__)
                 got.append(fh.tell() == pos)
             except Exception as e:  # noqa: BLE001
                 ctx.violation("union-pointers", f"pointer-in-union-raises:{type(e).__name__}", dict(det, error=lib.exc_sig(e)))
                 continue
-            if got != [0x97, 0x97, 0x97, 0xBB, 0xBB, True]:
+            if got != [0x97, 0x97, 0x97, 0x97, 0xBB, 0xBB, 0xBB, True]:
                 ctx.violation("union-pointers", "pointer-inside-a-fixed-size-union-dereferences-into-the-unions-private-buffer",
-                              dict(det, got=repr(got), want="[0x97, 0x97, 0x97, 0xbb, 0xbb, True] (absolute offsets 2 and 9 of the stream)"))
+                              dict(det, got=repr(got), want="[0x97, 0x97, 0x97, 0x97, 0xbb, 0xbb, 0xbb, True] (absolute offsets 2 and 9 of the stream)"))
             else:
                 ctx.event("union_pointers_absolute")
             # a union that did not come from a stream -- built from values, default-constructed and then assigned, or
@@ -555,7 +584,7 @@ def union_pointers(ctx):
                 c.un.raw = 0x02020202
                 d = cs.outer(pad=[1, 2, 3, 4], un=cs.u(raw=0x01010101))
                 outs = []
-                for ptr in (a.p, a.s.q, a.arr[1], b.p, b.s.q, c.un.p, c.un.arr[0], d.un.p):
+                for ptr in (a.p, a.s.q, a.arr[1], a.grid[1][0], b.p, b.s.q, c.un.p, c.un.arr[0], c.un.grid[0][1], d.un.p):
                     try:
                         outs.append(("value", repr(ptr.dereference())))
                     except NullPointerDereference:
